@@ -1,7 +1,100 @@
-(* C01 - Inbound messages keep their meaning when written as ASCII lines.  (work in progress) *)
-From RP Require Import Lib.Base Model.MsgIn Model.EncIn Proofs.InTotal.
+(* C01 - Inbound messages keep their meaning when written as ASCII lines.
+   Only statements here; each closed by [exact] of a lemma from Proofs/.
 
-Theorem c01_enc_total : forall json_enc nc_print ms,
-  Forall wire_reachable ms -> exists ls, enc_in json_enc nc_print ms = Ok ls.
-Proof. exact enc_in_total. Qed.
-Print Assumptions c01_enc_total.
+   Vocabulary: [enc_in] = model of InboundMessagesToRawPanelASCIIstrings (Model/EncIn.v);
+   [sem_in_lines] = the independent reference reader of the ASCII grammar folded over lines
+   (Spec/GrammarIn.v), acting on an abstract panel and its own graphics-transfer tracker;
+   [run_msgs p ms] = the panel the messages themselves describe (Spec/DenoteIn.v);
+   [rep_msg] = the ASCII-representable domain (Spec/DenoteIn.v, end of file).
+   The two encoding/json calls of the encoder (NetworkConfig, Processors state) are oracles:
+   Section-style arguments [json_enc], [nc_print] with the reader-side parser [nc_parse];
+   the hypotheses say what is assumed of them. *)
+From RP Require Import Lib.Base Lib.Strings Model.MsgIn Model.EncIn Model.DecIn Spec.DenoteIn Spec.GrammarIn
+  Proofs.InBits Proofs.InEncLines Proofs.InEncText Proofs.InEnc Proofs.InSeq Proofs.InTotal Proofs.StringsProofs.
+
+(* MAIN THEOREM, _partial: graphics lines excluded (messages whose states carry an HWCGfx
+   sub-message are outside [no_gfx_msg]; the HWCg#/HWCgRGB#/HWCgGray# chunking is proved for
+   the decoder side in C05).  Everything else of the property's quantifier is inside:
+   flow words, all 29 command fields, mode / colour (index and RGB, quantised) / extended
+   value / the 21 text fields with the normal form / raw-ADC, registers, any number of ids
+   per state (fan-out), any number of states, registers and messages (submission order), from
+   ANY start panel and ANY tracker state.  Also: the encoder does not panic and every line it
+   writes is accepted by the reference reader. *)
+Theorem c01_enc_in_sound_partial :
+  forall (json_state : list Z -> HWCState) (json_msgs : list Z -> list (option InboundMessage))
+         (nc_parse : list Z -> option (list Z)) (json_enc : HWCState -> list Z) (nc_print : list Z -> list Z)
+         (one_line_trimmed netcfg_ok : list Z -> bool),
+    (forall j, one_line_trimmed j = true -> strip_line_breaks j = j /\ single_line j = true) ->
+    (forall n, netcfg_ok n = true -> nc_parse (nc_print n) = Some n /\ single_line (nc_print n) = true) ->
+    forall ms p x,
+      forallb (rep_msg one_line_trimmed netcfg_ok) ms = true -> forallb no_gfx_msg ms = true ->
+      exists ls, enc_in json_enc nc_print ms = Ok ls /\
+                 Forall (fun l => effs_line json_state json_msgs nc_parse l = true) ls /\
+                 fst (sem_in_lines json_state json_msgs nc_parse (p, x) ls) = run_msgs p ms.
+Proof. exact enc_in_sound_nogfx. Qed.
+Print Assumptions c01_enc_in_sound_partial.
+
+(* per-field packing, bounds stated: all 8 x 2 x 16 modes, all 16 x 4096 extended values *)
+Theorem c01_pack_mode : forall m, rep_mode m = true ->
+  let v := pack_mode m in
+  0 <= v < 4096 /\ bits v 0 4 = m_state m /\ (bits v 5 1 =? 1) = m_output m /\ bits v 8 4 = m_blink m.
+Proof. exact pack_mode_bits. Qed.
+Print Assumptions c01_pack_mode.
+
+Theorem c01_pack_ext : forall x, rep_ext x = true ->
+  let p := pack_ext x in 0 <= p < 65536 /\ bits p 12 4 = x_interp x /\ bits p 0 12 = x_value x.
+Proof. exact pack_ext_bits. Qed.
+Print Assumptions c01_pack_ext.
+
+(* every RGB triple of uint32 channels: the encoder's quantisation is the spec's *)
+Theorem c01_quantisation : forall c, 0 <= c -> quant2 c = q2 c /\ 0 <= q2 c <= 3.
+Proof. exact quant2_q2. Qed.
+Print Assumptions c01_quantisation.
+
+(* the 21-slot text line: trailing-trim lemma, and the reader on the slots = normal form *)
+Theorem c01_trailing_trim : forall l, forallb no_bar l = true ->
+  (forall k, fld (fields 124 (implode_trim l)) k = fld l k) /\
+  (length (fields 124 (implode_trim l)) <= Nat.max 1 (length l))%nat.
+Proof. exact implode_fields. Qed.
+Print Assumptions c01_trailing_trim.
+
+Theorem c01_text_fields : forall t, rep_text t = true -> rd_text (text_slots t) = Some (norm_text t).
+Proof. exact text_read. Qed.
+Print Assumptions c01_text_fields.
+
+(* round trip through the library's own decoder (C01 o C02), same exclusions *)
+Theorem c01_dec_enc_partial :
+  forall (json_state : list Z -> HWCState) (json_msgs : list Z -> list (option InboundMessage))
+         (nc_parse : list Z -> option (list Z)) (json_enc : HWCState -> list Z) (nc_print : list Z -> list Z)
+         (one_line_trimmed netcfg_ok : list Z -> bool),
+    (forall j, one_line_trimmed j = true -> strip_line_breaks j = j /\ single_line j = true) ->
+    (forall n, netcfg_ok n = true -> nc_parse (nc_print n) = Some n /\ single_line (nc_print n) = true) ->
+    forall ms p,
+      forallb (rep_msg one_line_trimmed netcfg_ok) ms = true -> forallb no_gfx_msg ms = true ->
+      exists ls ms', enc_in json_enc nc_print ms = Ok ls /\ dec_in json_state json_msgs nc_parse ls = Ok ms' /\
+                     run_msgs p ms' = run_msgs p ms.
+Proof. exact dec_enc_in_nogfx. Qed.
+Print Assumptions c01_dec_enc_partial.
+
+From Coq Require Import String.
+Open Scope string_scope.
+Open Scope list_scope.
+Open Scope Z_scope.
+(* Non-vacuity: a concrete representable message with a command, two ids, mode + RGB colour +
+   text with label, pair mode defaulting, and a flag register; its lines; the panel reached. *)
+Definition c01_example_msg : InboundMessage :=
+  mkMsg 2
+    (Some (mkCmd false true false false false false false false false false false false false false false false
+                 (Some (5, 7)) None None None None None None None (Some 3000) None None None None))
+    [Some (mkState [4; 9] (Some (mkMode 4 true 3)) (Some (mkColor (Some (mkRGB 255 100 0)) None)) None
+             (Some (mkText 42 1 2 0 (Sexp.str "Vol") true (Sexp.str "dB") [] 7 0 None None false None None false))
+             None None None)]
+    [Some (mkReg 1 (Sexp.str "12") 9)].
+Example c01_nonvacuous :
+  forallb (rep_msg (fun _ => true) (fun _ => true)) [c01_example_msg] = true /\
+  forallb no_gfx_msg [c01_example_msg] = true /\
+  enc_in (fun _ => []) (fun n => n) [c01_example_msg] =
+    Ok (map Sexp.str ["ack"; "list"; "PanelBrightness=5,7"; "HeartBeatTimer=3000";
+                      "HWC#4=804"; "HWCc#4=244"; "HWCt#4=42|1|2|Vol||dB||7";
+                      "HWC#9=804"; "HWCc#9=244"; "HWCt#9=42|1|2|Vol||dB||7"; "Flag#12=9"]).
+Proof. vm_compute. repeat split; reflexivity. Qed.
